@@ -697,14 +697,29 @@ def _op_netgen(ctx, o):
         xo, yo = W / cols, H / rows
         for r_ in range(rows):
             for c_ in range(cols):
-                centers["M%d_%d" % (r_, c_)] = [(0.5 + c_) * xo + twin.gauss(0, sd), (0.5 + r_) * yo + twin.gauss(0, sd)]
+                centers["M%d_%d" % (r_, c_)] = [(0.5 + c_) * xo, (0.5 + r_) * yo]
+        noise_sd = sd
         if ctx.rnd.draws != 2 * rows * cols:
-            ctx.v("netgen consumed an unexpected number of random draws", key, {"draws": ctx.rnd.draws, "expected": 2 * rows * cols})
+            ctx.probe("netgen_draw_count_differs_from_2_per_module")
         ctx.probe("netgen_with_centers")
     for n_ in names:
         exp_mods.append({"name": n_, "kind": "soft", "flip": False, "area": {"_": 1.0}, "center": centers.get(n_),
                          "aspect": None, "rects": []})
     exp = {"modules": exp_mods, "nets": [[m_, float(w_)] for m_, w_ in nets]}
+    if o.get("centers"):
+        # centres: on the grid position, displaced by the requested noise (the draw order is not prescribed: each
+        # coordinate must lie within 8 standard deviations of its grid position, exactly on it when the deviation is 0)
+        bad = None
+        for gm, em in zip(got["modules"], exp_mods):
+            gc, ec = gm.get("center"), em["center"]
+            if gc is None or any(abs(a - b) > 8 * noise_sd + 1e-9 * max(W, H) for a, b in zip(gc, ec)):
+                bad = (gm["name"], gc, ec)
+                break
+            gm["center"] = ec
+        if bad:
+            ctx.v("document read back describes a different design", dict(key, what="centres"),
+                  {"module": bad[0], "read": bad[1], "grid_position": bad[2], "sd": noise_sd, "args": args})
+            return "differs"
     if canon(exp) != canon(got):
         ctx.v("document read back describes a different design", key, {"expected": canon(exp), "read": canon(got), "args": args})
         return "differs"
